@@ -56,9 +56,11 @@ def main():
         mod = os.path.join(wt, pkg.split("/")[0])
         rel = "./" + "/".join(pkg.split("/")[1:]) if "/" in pkg else "."
 
+        race = ["-race"] if "-race" in "\n".join(first) else []
+
         def run_demo():
             shutil.copy(os.path.join(src, "demo_test.go"), demo_dst)
-            rc, out = sh(["go", "test", "-vet=off", "-count=1", "-timeout", "120s", "-run", run, rel], cwd=mod)
+            rc, out = sh(["go", "test", "-vet=off", "-count=1", "-timeout", "300s"] + race + ["-run", run, rel], cwd=mod)
             os.remove(demo_dst)
             return rc, out
         # without the patch the demo passes
@@ -74,9 +76,13 @@ def main():
         pkgs = ". ./multiendpoint" if pkg.startswith("grpcgcp") else "./..."
         rcb, outb = sh("go test -vet=off -count=1 -run '^$' %s" % pkgs, cwd=mod)
         res["builds"] = rcb == 0
+        # failing tests of the unchanged tree (spanner_prober has one in the baseline)
+        base_fail = set(re.findall(r"^\s*--- FAIL: (\S+)", sh("git stash -q; go test -vet=off -count=1 %s; git stash pop -q" % pkgs, cwd=mod)[1], re.M))
         for attempt in range(3):     # the suite has wall-clock sensitive tests; retry to filter load flakes
             rct, outt = sh("go test -vet=off -count=1 %s" % pkgs, cwd=mod)
-            if rct == 0:
+            now_fail = set(re.findall(r"^\s*--- FAIL: (\S+)", outt, re.M))
+            if rct == 0 or (now_fail and now_fail == base_fail):
+                rct = 0
                 break
         if rct != 0:
             res["existing_tests_output"] = outt[-1500:]
